@@ -1001,12 +1001,10 @@ theorem build_wfCore (fuel parseRoot : Nat) (parseTree : Array ParseNode) (s0 : 
   unfold build
   split
   · rename_i hempty
-    simp only [sat_ok, pushInstr]
+    simp only [sat_ok, pushInstr, pushToJumpTable, getInstructionLen, getJumpTableLen]
     refine ⟨⟨allFrom_push (allFrom_of_size_le (Nat.le_refl _)) (by simp [instrOk, opKind]), allFrom_of_size_le (Nat.le_refl _),
-      allFrom_of_size_le (Nat.le_refl _), by simp [show s0.metadata.size = s0.instrs.size from hs0],
-      allFrom_push (allFrom_of_size_le (Nat.le_refl _)) rfl⟩, fun hne => ?_, ⟨(.endExpression, none), by simp, rfl⟩⟩
-    have : parseTree.size = 0 := by simpa [Array.isEmpty] using hempty
-    exact absurd this hne
+      allFrom_push (allFrom_of_size_le (Nat.le_refl _)) (by simp), by simp [show s0.metadata.size = s0.instrs.size from hs0],
+      allFrom_push (allFrom_of_size_le (Nat.le_refl _)) rfl⟩, fun _ => by simp, ⟨(.endExpression, none), by simp, rfl⟩⟩
   · refine sat_bind (Q := fun _ => True) sat_true (fun _ _ => ?_)
     exact sat_mono (buildCore_wf parseFloat fuel parseRoot parseTree s0 hs0) (fun r hr => ⟨hr.1, fun _ => hr.2.1, hr.2.2⟩)
 
